@@ -47,7 +47,6 @@ func c10Class(s string) string {
 	return s
 }
 
-
 // routeNorm: a request handed to a responder with a body it cannot decode is answered 255
 func routeNorm(emptyBody bool) func(string) string {
 	return func(m string) string {
@@ -308,7 +307,9 @@ func (m c10DevmodMsg) kv() gen.Item {
 // encrypted under the session keys; the module list the owner keeps is compared with the model.
 func c10Devmod(e *c10Env, cw *c10World) {
 	N := func(n int64) c10DevmodMsg { return c10DevmodMsg{num: true, n: n} }
-	C := func(start, l int64, names ...string) c10DevmodMsg { return c10DevmodMsg{start: start, len: l, names: names} }
+	C := func(start, l int64, names ...string) c10DevmodMsg {
+		return c10DevmodMsg{start: start, len: l, names: names}
+	}
 	scripts := [][]c10DevmodMsg{
 		{N(3), C(0, 3, "a", "b", "c")}, {N(3), C(0, 2, "a", "b"), C(2, 1, "c")}, {N(3), C(0, 2, "a", "b"), C(0, 1, "c")},
 		{N(-1)}, {N(math.MinInt64)}, {N(0)}, {N(0), C(0, 0)}, {N(0), C(0, 1, "a")}, {N(1), C(0, 2, "a", "b")}, {N(1), C(1, 1, "a")},
@@ -666,7 +667,9 @@ func c10Resigned(e *c10Env, cw *c10World) {
 	alter61("identity", func(p *pt) {})
 	alter61("kex-empty", func(p *pt) { p.Payload.Val.KeyExchangeA = nil })
 	alter61("kex-one-byte", func(p *pt) { p.Payload.Val.KeyExchangeA = []byte{0} })
-	alter61("kex-truncated", func(p *pt) { p.Payload.Val.KeyExchangeA = p.Payload.Val.KeyExchangeA[:len(p.Payload.Val.KeyExchangeA)/2] })
+	alter61("kex-truncated", func(p *pt) {
+		p.Payload.Val.KeyExchangeA = p.Payload.Val.KeyExchangeA[:len(p.Payload.Val.KeyExchangeA)/2]
+	})
 	alter61("kex-64KiB", func(p *pt) { p.Payload.Val.KeyExchangeA = make([]byte, 60000) })
 	alter61("kex-length-fields-ffff", func(p *pt) {
 		for i := range p.Payload.Val.KeyExchangeA {
